@@ -54,7 +54,7 @@ import (
 const (
 	stsHost     = "irc.test"
 	stsCfgPort  = 6667
-	stsPeerWait = 15 * time.Second
+	stsPeerWait = 10 * time.Second
 )
 
 // ---------------------------------------------------------------- TLS peer
